@@ -1395,6 +1395,14 @@ def atomic_diffs(a, b, path="", out=None):
                 and len(_merge_leaves(a)) > 1:
             out.append(f"{path}: operator {'|' if b[0] == 'op' else '&'} instead of {'&' if b[0] == 'op' else '|'}")
             return out
+        # a mapping re-keyed in the order of another sequence: {k: D[k] for k in K} against D
+        for x, y, word in ((a, b, "is additionally re-keyed"), (b, a, "is no longer re-keyed")):
+            if x[0] == "comp" and len(x) == 4 and x[1] == "dict" and len(x[3]) == 1 and not x[3][0][2] and is_term(x[3][0][0]) \
+                    and x[3][0][0][0] == "bv" and x[2][0] == x[3][0][0] and is_term(x[2][1]) and x[2][1][0] == "sub" \
+                    and x[2][1][2] == x[3][0][0] and canon_bv(x[2][1][1]) == canon_bv(y):
+                out.append(f"~{path}: the mapping {word} in the order of {_short(x[3][0][1])}: whether that changes the key order "
+                           "depends on the order the mapping already has")
+                return out
         # the reviewed sequence re-ordered: sorted(x, key=...) / reversed(x) against x
         for x, y, word in ((a, b, "is additionally re-ordered by"), (b, a, "is no longer re-ordered by")):
             if x[0] == "call" and len(x) == 4 and x[1] in (("glob", "builtins.sorted"), ("glob", "builtins.reversed")) \
